@@ -57,6 +57,7 @@ theorem src_C12_param_stats (a : PAcc) (w : Bool) (h : a.n ≠ 0) :
   unfold paramStats stats_mean stats_var stats_inpaintP
   rw [if_neg h]
   simp only [PStats.mk.injEq, Option.some.injEq, true_and, and_true]
+  congr 1
   ring
 
 
